@@ -253,6 +253,10 @@ def run(ctx):
             if "field_finite" in rels:
                 evs.append({"event": "Relation", "rel": "field_finite",
                             "mb": -20000 if np.all(np.isfinite(F)) else 20000, "xcls": c["x"]})
+            if "field_mie_vs_multisphere_radial" in rels:
+                Fm = calc_field(dP, sphz, illum_polarization=polv, theory=Multisphere(compute_escat_radial=True), **opts).values
+                evs.append({"event": "Relation", "xcls": c["x"], "rel": "field_mie_vs_multisphere_radial",
+                            "mb": quant.mb(rel(F, Fm, fs)), "mcls": c["m"]})
             if "field_mie_vs_multisphere" in rels:
                 for tight in (False, True):
                     ms = Multisphere(eps=1e-12, qeps1=1e-9, qeps2=1e-12) if tight else Multisphere()
